@@ -306,6 +306,13 @@ def matcher(P, R):
     # is the test of a criterion (a glob, the prefix test, the service's OK) - or, for an equivalent spelling, a
     # comparison that involves one of the rule's criterion members and nothing else of the rule
     crit_fields = set(CRITERIA)
+    # what the loader noted about a criterion ("this rule's address did not parse") is a member named after it; a pure
+    # test of such a member against zero is a reason belonging to that criterion
+    stems = {c.split('_')[0] for c in CRITERIA}
+
+    def noted(r_):
+        l_, rr_ = r_[0], r_[2]
+        return isinstance(l_, dict) and l_.get('k') == 'mem' and l_.get('rec') == RULE_REC and is_var(l_.get('base')) and str(l_.get('field', '')).split('_')[0] in stems and const_of(rr_) == 0
     for t in m.sites():
         if not (t.ev['k'] == 'ret' and const_of(t.ev.get('val')) == 0):
             continue
@@ -317,7 +324,7 @@ def matcher(P, R):
             ok = isinstance(l, dict) and l.get('k') == 'callref' and l.get('callee') in ('fnmatch', 'irc_check_mask', 'iauth_xreply_ok', 'strcmp', 'strcasecmp')
             if not ok:
                 mem = {x.get('field') for x in walk(l) if isinstance(x, dict) and x.get('k') == 'mem' and x.get('rec') == RULE_REC}
-                ok = bool(mem) and mem <= crit_fields
+                ok = (bool(mem) and mem <= crit_fields) or noted(r)
             if not ok and is_var(l) and l['name'].startswith('__ret@'):
                 # the criteria moved into helpers that the model folded into this function: where a helper returns "no
                 # match" it stores 0 (or the outcome of a criterion test) into its result variable; those reasons are
@@ -665,9 +672,36 @@ def limits_admit_maximum(P, R, rule='C11.BND.3'):
     R.floor(rule, 2, 'copies of server-reported texts into the request')
 
 
+def address_text_checked(P, R, rule='C11.GRD.5'):
+    """A criterion that cannot be read is not a criterion that everybody satisfies: where the rule loader hands a rule's
+    address text to the address parser it looks at the parser's verdict (the call stands in a condition, or its result
+    is kept and tested).  Ignored, a mistyped network ("10.0.0.0/33", "bogus") leaves prefix length 0 - the rule then
+    matches every client - or whatever the parser had stored before it gave up."""
+    n = 0
+    for f in P.unit_fns('modules/iauth_class.c'):
+        for s in f.calls('irc_pton'):
+            used = False
+            for b in f.blocks:
+                c = f.term_cond(b)
+                if c is not None and any(isinstance(x, dict) and x.get('k') == 'callref' and x.get('ev') == s.ev.get('id') for x in walk(c)):
+                    used = True
+            for t in f.sites():
+                val = t.ev.get('rhs') if t.ev['k'] == 'store' else t.ev.get('init') if t.ev['k'] == 'decl' else None
+                if isinstance(val, dict) and any(isinstance(x, dict) and x.get('k') == 'callref' and x.get('ev') == s.ev.get('id') for x in walk(val)):
+                    v = t.ev['lhs']['name'] if t.ev['k'] == 'store' and is_var(t.ev.get('lhs')) else t.ev.get('var')
+                    if v and any(f.term_cond(b) is not None and any(is_var(x, v) for x in walk(f.term_cond(b))) for b in f.blocks):
+                        used = True
+                    if t.ev['k'] == 'store' and isinstance(t.ev.get('lhs'), dict) and t.ev['lhs'].get('k') == 'mem':
+                        used = True     # kept in the rule for the matcher to test
+            n += 1
+            R.ob(rule, used, s, 'the rule loader looks at whether the rule\'s address text could be parsed', key='address-verdict:%s' % f.name)
+    R.floor(rule, 1, 'address texts parsed by the rule loader')
+
+
 def run(P, R, tier):
     ok_query(P, R)
     class_kept_whole(P, R)
+    address_text_checked(P, R)
     limits_admit_maximum(P, R)
     # the address criterion compares the prefix length the mask parser reports
     from . import c13
